@@ -12,8 +12,8 @@
   name, otherwise the value of the last argument without a name, otherwise the default.
 -/
 import FcModel.Cli
-namespace Fc.Cli.Spec
-open Fc Fc.Cli
+namespace Fc.C04.Spec
+open Fc Fc.C04
 
 /-- value of one argument: `none` = the argument is rejected (malformed / not a number) -/
 def tokValue (pf : String → FloatLit) (dyn : Bool) (s : String) : Option (Option TolVal) :=
@@ -93,4 +93,4 @@ def exitZero (pf : String → FloatLit) (s : Scenario) : Bool :=
   tokensValid pf false s.rtolToks && tokensValid pf true s.atolToks &&
   s.readRes == .ok && s.readRef == .ok && payloadOk pf s s.payload
 
-end Fc.Cli.Spec
+end Fc.C04.Spec
